@@ -57,48 +57,68 @@ static void outLik(Out& o, std::pair<bool, VectorXd> l) {
 }
 
 // One correction object of each kind, driven through one or several successive correct() + getLikelihood()
-// calls (component count, measurement, belief and failing calls vary from call to call).
-// The state has n rows, the last nc of them circular (Euler angles).
+// calls.  From call to call vary: component count, belief, measurement, failing model answers, the measurement
+// size (the first msz rows of H, h0 and the leading msz x msz corner of a full R are in force), the measurement
+// function (kind), the scale of the reported noise covariance (time-varying collaborators), a skip(true);
+// skip(false) toggle that nets to nothing.  The state has n rows, the last nc of them circular (Euler angles).
 //   sukf  n nc msz bs red k alpha beta kappa hkind failM failP failI H h0 y R means covs outw
-//   sukfs n nc msz bs red alpha beta kappa hkind H h0 R ncalls { k failM failP failI rscale y means covs outw }*
-// (the noise covariance the model reports in a call is rscale * R: time-varying noise)
-struct Call { long k; bool failM, failP, failI; double rscale; VectorXd y; MatrixXd means, covs; VectorXd outw; };
+//   sukfs n nc mszmax bs red alpha beta kappa mv H h0 R ncalls
+//         { k msz kind failM failP failI rscale toggle qlik y(msz) means covs outw }*
+//   mv: 0 = the object as constructed, 1 = a move-constructed copy from the start, 2 = moved after the first call
+//   qlik: query the serial likelihood after this call (0 only where stale members of mismatching size would be read)
+struct Call { long k, msz; int kind; bool failM, failP, failI; double rscale; bool toggle, qlik; VectorXd y; MatrixXd means, covs; VectorXd outw; };
 
-static std::string runCalls(long n, long nc, long msz, long bs, bool red, double alpha, double beta, double kappa, int kind,
+static bool sameLik(const std::pair<bool, VectorXd>& a, const std::pair<bool, VectorXd>& b) {
+    if (a.first != b.first) return false;
+    if (!a.first) return true;
+    return vh::same_bits(MatrixXd(a.second), MatrixXd(b.second));
+}
+
+static std::string runCalls(long n, long nc, long bs, bool red, double alpha, double beta, double kappa, int mv,
                             const MatrixXd& H, const VectorXd& h0, const MatrixXd& R, const std::vector<Call>& calls) {
-    const bool divides = (msz % bs) == 0;
-    HModel* ms = new HModel(kind, nc, H, h0, VectorXd::Zero(msz), R, false, false, false);
-    SUKFCorrection sukfc(std::unique_ptr<AdditiveMeasurementModel>(ms), alpha, beta, kappa, (std::size_t)bs, red);
-    // the standard additive correction is given the full covariance the encoding stands for
-    HModel* mu = nullptr; std::unique_ptr<UKFCorrection> ukfc;
-    MatrixXd Rfull = R;
-    if (divides) {
-        if (red) { Rfull = MatrixXd::Zero(msz, msz); for (long i = 0; i < msz / bs; ++i) Rfull.block(bs * i, bs * i, bs, bs) = R; }
-        mu = new HModel(kind, nc, H, h0, VectorXd::Zero(msz), Rfull, false, false, false);
-        ukfc.reset(new UKFCorrection(std::unique_ptr<AdditiveMeasurementModel>(mu), alpha, beta, kappa));
-    }
+    const long mszmax = H.rows();
+    HModel* ms = new HModel(0, nc, H, h0, VectorXd::Zero(mszmax), R, false, false, false);
+    std::unique_ptr<SUKFCorrection> sukfc(new SUKFCorrection(std::unique_ptr<AdditiveMeasurementModel>(ms), alpha, beta, kappa, (std::size_t)bs, red));
+    if (mv == 1) sukfc.reset(new SUKFCorrection(std::move(*sukfc)));
+    // the standard additive correction (the oracle) is given the full covariance the encoding stands for
+    HModel* mu = new HModel(0, nc, H, h0, VectorXd::Zero(mszmax), R, false, false, false);
+    UKFCorrection ukfc(std::unique_ptr<AdditiveMeasurementModel>(mu), alpha, beta, kappa);
     sigma_point::UTWeight w((std::size_t)n, alpha, beta, kappa);
     Out o; o.s("ok");
     bool firstCall = true;
     for (const Call& c : calls) {
         if (!firstCall) o.s("|");
+        if (!firstCall && mv == 2) { sukfc.reset(new SUKFCorrection(std::move(*sukfc))); mv = 0; }
+        const long msz = c.msz;
+        const bool divides = (msz % bs) == 0;
+        const bool faulty = c.failM || c.failP || c.failI;
         GaussianMixture pred(c.k, n - nc, nc), corrS(c.k, n - nc, nc), corrU(c.k, n - nc, nc);
         pred.mean() = c.means; pred.covariance() = c.covs;
         for (GaussianMixture* g : { &corrS, &corrU }) { g->mean().setConstant(12345.0); g->covariance().setConstant(-54321.0); g->weight() = c.outw; }
         MatrixXd m0 = pred.mean(), c0 = pred.covariance(), w0 = pred.weight();
-        ms->R_ = c.rscale * R; if (mu) mu->R_ = c.rscale * Rfull;
-        for (HModel* m : { ms, mu }) if (m) { m->y_ = c.y; m->failM_ = c.failM; m->failP_ = c.failP; m->failI_ = c.failI; m->X_.resize(0, 0); m->Y_.resize(0, 0); }
-        std::pair<bool, VectorXd> likS0 = firstCall ? sukfc.getLikelihood() : std::make_pair(false, VectorXd());
-        sukfc.correct(pred, corrS);
-        std::pair<bool, VectorXd> likS = sukfc.getLikelihood();
+        // what the measurement models answer in this call
+        MatrixXd Rs = red ? MatrixXd(c.rscale * R) : MatrixXd(c.rscale * R.topLeftCorner(msz, msz));
+        MatrixXd Rfull = Rs;
+        if (red && divides) { Rfull = MatrixXd::Zero(msz, msz); for (long i = 0; i < msz / bs; ++i) Rfull.block(bs * i, bs * i, bs, bs) = Rs; }
+        ms->R_ = Rs; mu->R_ = Rfull;
+        for (HModel* m : { ms, mu }) {
+            m->kind_ = c.kind; m->H_ = H.topRows(msz); m->h0_ = h0.head(msz); m->y_ = c.y;
+            m->failM_ = c.failM; m->failP_ = c.failP; m->failI_ = c.failI; m->X_.resize(0, 0); m->Y_.resize(0, 0);
+        }
+        std::pair<bool, VectorXd> likS0 = firstCall ? sukfc->getLikelihood() : std::make_pair(false, VectorXd());
+        if (c.toggle) { sukfc->skip(true); sukfc->skip(false); ukfc.skip(true); ukfc.skip(false); }
+        sukfc->correct(pred, corrS);
+        std::pair<bool, VectorXd> likS = c.qlik ? sukfc->getLikelihood() : std::make_pair(false, VectorXd());
+        // the query must be repeatable: asked three times, the answers agree bit for bit
+        bool rep = true;
+        if (c.qlik) { rep = sameLik(likS, sukfc->getLikelihood()); rep = sameLik(likS, sukfc->getLikelihood()) && rep; }
         o.s("S"); o.m(corrS.mean()); o.m(corrS.covariance()); o.m(corrS.weight()); outLik(o, likS);
         o.s(likS0.first ? "prelik" : "noprelik");
         // The standard correction is the oracle for successful steps only: it is not driven through calls
         // with a failing model answer (what it does then is C12's subject, not C05's).
-        const bool faulty = c.failM || c.failP || c.failI;
         if (divides && !faulty) {
-            ukfc->correct(pred, corrU);
-            o.s("U"); o.m(corrU.mean()); o.m(corrU.covariance()); outLik(o, ukfc->getLikelihood());
+            ukfc.correct(pred, corrU);
+            o.s("U"); o.m(corrU.mean()); o.m(corrU.covariance()); outLik(o, ukfc.getLikelihood());
         } else {
             o.s("Unone");
         }
@@ -107,15 +127,10 @@ static std::string runCalls(long n, long nc, long msz, long bs, bool red, double
         o.s("X"); o.n(ms->X_.cols()); o.m(ms->X_);
         o.s("Y"); o.n(ms->Y_.cols()); o.m(ms->Y_);
         o.s(same ? "in-same" : "in-modified");
+        o.s(rep ? "likrep-same" : "likrep-diff");
         firstCall = false;
     }
     return o.str();
-}
-
-static Call readCall(Toks& t, long n, long msz) {
-    Call c; c.k = t.nat(); c.failM = t.flag(); c.failP = t.flag(); c.failI = t.flag(); c.rscale = t.dbl();
-    c.y = t.vec(msz); c.means = t.mat(n, c.k); c.covs = t.mat(n, n * c.k); c.outw = t.vec(c.k);
-    return c;
 }
 
 static std::string sukf(Toks& t) {
@@ -124,23 +139,30 @@ static std::string sukf(Toks& t) {
     int kind = (int)t.nat(); bool failM = t.flag(), failP = t.flag(), failI = t.flag();
     MatrixXd H = t.mat(msz, n); VectorXd h0 = t.vec(msz), y = t.vec(msz);
     MatrixXd R = red ? t.mat(bs, bs) : t.mat(msz, msz);
-    Call c; c.k = k; c.failM = failM; c.failP = failP; c.failI = failI; c.rscale = 1.0; c.y = y;
+    Call c; c.k = k; c.msz = msz; c.kind = kind; c.failM = failM; c.failP = failP; c.failI = failI; c.rscale = 1.0;
+    c.toggle = false; c.qlik = true; c.y = y;
     c.means = t.mat(n, k); c.covs = t.mat(n, n * k); c.outw = t.vec(k);
     t.done();
-    return runCalls(n, nc, msz, bs, red, alpha, beta, kappa, kind, H, h0, R, { c });
+    return runCalls(n, nc, bs, red, alpha, beta, kappa, 0, H, h0, R, { c });
 }
 
 static std::string sukfs(Toks& t) {
-    long n = t.nat(), nc = t.nat(), msz = t.nat(), bs = t.nat(); bool red = t.flag();
+    long n = t.nat(), nc = t.nat(), mszmax = t.nat(), bs = t.nat(); bool red = t.flag();
     double alpha = t.dbl(), beta = t.dbl(), kappa = t.dbl();
-    int kind = (int)t.nat();
-    MatrixXd H = t.mat(msz, n); VectorXd h0 = t.vec(msz);
-    MatrixXd R = red ? t.mat(bs, bs) : t.mat(msz, msz);
+    int mv = (int)t.nat();
+    MatrixXd H = t.mat(mszmax, n); VectorXd h0 = t.vec(mszmax);
+    MatrixXd R = red ? t.mat(bs, bs) : t.mat(mszmax, mszmax);
     long ncalls = t.nat();
     std::vector<Call> calls;
-    for (long i = 0; i < ncalls; ++i) calls.push_back(readCall(t, n, msz));
+    for (long i = 0; i < ncalls; ++i) {
+        Call c; c.k = t.nat(); c.msz = t.nat(); c.kind = (int)t.nat();
+        c.failM = t.flag(); c.failP = t.flag(); c.failI = t.flag(); c.rscale = t.dbl(); c.toggle = t.flag(); c.qlik = t.flag();
+        if (c.msz < 1 || c.msz > mszmax) throw vh::BadArgs("msz");
+        c.y = t.vec(c.msz); c.means = t.mat(n, c.k); c.covs = t.mat(n, n * c.k); c.outw = t.vec(c.k);
+        calls.push_back(c);
+    }
     t.done();
-    return runCalls(n, nc, msz, bs, red, alpha, beta, kappa, kind, H, h0, R, calls);
+    return runCalls(n, nc, bs, red, alpha, beta, kappa, mv, H, h0, R, calls);
 }
 
 int main() {
